@@ -7,6 +7,8 @@
 From Ink.Engine Require Import Api Tie Run.
 From Ink.Gen Require Import PathGen.
 From Ink.Shell Require Import RejectProofs.
+From Ink.Engine Require Import Api Tie.
+From Ink.Shell Require Import HostFrame Balance BetweenCalls ResetProofs.
 
 Theorem cont_rejected_noop : forall (I : iface) (w : world),
   w_async w = false -> w_validated w = true -> ss_can_continue (w_state w) = Ok false ->
@@ -167,3 +169,35 @@ Proof. exact RejectProofs.async_guard. Qed.
 Check async_guard : forall (w : world), w_async w = true ->
   exists msg, if_async_we_cant w = (OErr InvalidState msg, w).
 Print Assumptions async_guard.
+
+(* ---------------- the bookkeeping invariant between host calls ---------------- *)
+(* Inv w := nesting counter = 0 /\ (no time-limited continue pending -> no look-ahead snapshot /\
+   rewind flag clear).  It holds for a freshly constructed story and is preserved by every story
+   operation (all forms of continue, choose, jump, evaluate, set a variable, flow operations,
+   reset) that does not end in a panic — whether the call returns Ok or Err.  The code fact it rests
+   on is regenerated: continue_internal tests can_continue before touching the counters
+   (now_cont_check_first).  Counter leaks (defect e98ca2b, seeded change C04) falsify it. *)
+Theorem bookkeeping_invariant :
+  forall (I : iface) (ops : list story_op) (w : world),
+    Inv w -> no_panic I sw_now ops w -> Inv (run_story_ops I sw_now ops w).
+Proof. exact (fun I => BetweenCalls.invariant_preserved I sw_now now_cont_check_first). Qed.
+Check bookkeeping_invariant :
+  forall (I : iface) (ops : list story_op) (w : world),
+    Inv w -> no_panic I sw_now ops w -> Inv (run_story_ops I sw_now ops w).
+Print Assumptions bookkeeping_invariant.
+
+Theorem between_calls_in_every_reachable_world :
+  forall (I : iface) (ops : list story_op) (w : world),
+    Inv w -> no_panic I sw_now ops w ->
+    w_async (run_story_ops I sw_now ops w) = false ->
+    between_calls (run_story_ops I sw_now ops w).
+Proof. exact (fun I => BetweenCalls.between_calls_reachable I sw_now now_cont_check_first). Qed.
+Check between_calls_in_every_reachable_world :
+  forall (I : iface) (ops : list story_op) (w : world),
+    Inv w -> no_panic I sw_now ops w ->
+    w_async (run_story_ops I sw_now ops w) = false ->
+    between_calls (run_story_ops I sw_now ops w).
+Print Assumptions between_calls_in_every_reachable_world.
+
+Example fresh_world_satisfies_invariant : forall st seed fuel, Inv (world_init st seed fuel).
+Proof. exact BetweenCalls.inv_world_init. Qed.
